@@ -139,7 +139,7 @@ theorem stepPromote_inv {x x' : Inst} {tok cid : Nat} {dn : Bool} (inv : LInv x)
          rcases hc with rfl | hc
          · simp at hto
            simp only
-           exact ⟨hto.1, hto.2⟩
+           exact ⟨hto.1.1.1, hto.1.1.2⟩
          · exact c13 c hc hto
        all_goals (cases hc : x.callbacks <;> simp_all [b2n, o2n] <;> try omega))
 
@@ -235,11 +235,23 @@ theorem startRet_inv {x : Inst} (inv : LInv x) (hf : x.flag = false) (hp : x.pen
   case ctxLive => exact c13
   all_goals simp_all [b2n, o2n]
 
-theorem stopRet_inv {x : Inst} (inv : LInv x) (hs : x.stopPendingTrans = false) (n : Nat) (d : Bool) :
+theorem stopRet_inv {x : Inst} (inv : LInv x)
+    (hs : x.stopPendingTrans = true → ∀ c : StopCall, x.stops.head? = some c → ¬ c.n = n) (d : Bool) :
     LInv { x with stops := x.stops.filter (·.n ≠ n), ctxNil := x.ctxNil || d } := by
   obtain ⟨c1, c2, c3, c4, c5, c6, c7, c8, c9, c10, c11, c12, c13, c14⟩ := inv
   constructor
   case ctxLive => exact c13
+  case pendingStop =>
+    intro hp
+    simp only at hp
+    obtain ⟨h1, h2, h3⟩ := c11 hp
+    refine ⟨h1, h2, ?_⟩
+    simp only
+    cases hst : x.stops with
+    | nil => exact absurd hst h3
+    | cons c rest =>
+      have hc := hs hp c (by simp [hst])
+      simp [List.filter, hc]
   all_goals simp_all [b2n, o2n]
 
 /-- A stop call that found the election already stopped (e.ctx == nil) did nothing. -/
@@ -357,7 +369,7 @@ theorem step_inv {s s' : Sys} {e : TEv} (inv : SysInv s) (h : step s e = .ok s')
               · rename_i hg
                 simp only [not_or, Bool.not_eq_true] at hg
                 cases h
-                exact set_inv inv (stopRet_inv hxi (by simpa using hg.2) _ _)
+                exact set_inv inv (stopRet_inv hxi (by simpa using hg.2) _)
           · split at h
             · cases h; exact inv
             · cases h
@@ -371,7 +383,7 @@ theorem step_inv {s s' : Sys} {e : TEv} (inv : SysInv s) (h : step s e = .ok s')
               · rename_i hg
                 simp only [not_or, Bool.not_eq_true] at hg
                 cases h
-                exact set_inv inv (stopRet_inv hxi (by simpa using hg.2) _ _)
+                exact set_inv inv (stopRet_inv hxi (by simpa using hg.2) _)
           · split at h
             · cases h; exact inv
             · cases h
